@@ -153,6 +153,7 @@ func (c *IAMCache) CreateAccount(account Account) error {
 	if err != nil {
 		return err
 	}
+	verifhook.Point("iamcache.afterCreateStore")
 
 	// we need a copy of account to be able to store beyond the
 	// lifetime of the request, otherwise Fiber will reuse and corrupt
@@ -200,6 +201,7 @@ func (c *IAMCache) DeleteUserAccount(access string) error {
 	if err != nil {
 		return err
 	}
+	verifhook.Point("iamcache.afterDeleteStore")
 
 	c.iamcache.Delete(access)
 	return nil
@@ -213,6 +215,7 @@ func (c *IAMCache) UpdateUserAccount(access string, props MutableProps) error {
 	if err != nil {
 		return err
 	}
+	verifhook.Point("iamcache.afterUpdateStore")
 
 	c.iamcache.update(access, props)
 	return nil
